@@ -1,7 +1,7 @@
 """Source of MANIFEST.json (bin/mkmanifest renders it). One entry per claimed property."""
 
 HOOK_COMMITS = ["f529e9d", "ae52c2c"]
-FIX_COMMITS = ["c71e8ce", "b266a7b", "3c8b2f5", "8a433c1", "8c9bd77", "b6b128e", "d4a32a0", "05b2e41", "7858fec", "23c0ca4", "3feca11", "c1f5fc8", "212cd41", "2e485b4"]
+FIX_COMMITS = ["c71e8ce", "b266a7b", "3c8b2f5", "8a433c1", "8c9bd77", "b6b128e", "d4a32a0", "05b2e41", "7858fec", "23c0ca4", "3feca11", "c1f5fc8", "212cd41", "2e485b4", "6db0415"]
 
 CHECKS = {
     "C19": dict(
@@ -160,6 +160,40 @@ CHECKS = {
              "clone, another thread and OpeningHours::normalize, and the printed normal form parses, for corpus / model / random expressions.",
         note="Trusted: as C07; equivalence of the reparsed normal form is decided by C06.",
         design_ref="8/C13",
+    ),
+    "C09": dict(
+        category="model_checking",
+        technique="TLA+ spec Localize.tla (zone = offset table; Naive, Datetime with latest-on-fold and minute stepping over gaps) model checked over all small zone tables; recorded localized vs naive API answers around real chrono-tz transitions validated by Trace_Localize with the logged offset table",
+        text="MC_Localize: every table with <=2 transitions of +-1..3 ticks on a 22-tick timeline: the mapped instant shows the wall clock, is the "
+             "latest candidate, gaps are stepped over, Datetime is monotone (TLC shows monotonicity fails when two transitions are closer than "
+             "their jumps; the separation is assumed and checked on every logged table). Binding: 22 (quick) / all ~600 (thorough) zones of "
+             "chrono-tz incl. Lord_Howe (30 min DST), Apia / Kwajalein / Kiritimati (date line), Kathmandu, St_Johns, Troll; 3-6 transitions "
+             "each (first, last, largest jump, random) x 5 expressions with boundaries inside the gap/fold x 25 instants from -2 h to +2 h "
+             "(+-1 day), input given in UTC / Tokyo / New_York / Lord_Howe: state through the zone = state at the wall-clock time; "
+             "next_change and every interval bound = Datetime(zone table, naive result); zone carried; bounds never go backwards.",
+        note="Trusted: chrono-tz as the definition of zones (table extracted by probing + bisection), the naive API as oracle (differential), TLC.",
+        design_ref="8/C09",
+    ),
+    "C10": dict(
+        category="other",
+        technique="Trace_HolidayDB.tla: Embedded[c][k] = Source[c][k] and consistency of ALL / iso_code / FromStr, decided by TLC on an exhaustive extraction through the real decode path against the source files",
+        text="Exhaustive: for each of the 115 countries x {public, school}: the full iteration listing, count, a contains() scan of every day "
+             "1990-01-01..2085-12-31, the first_after chain from 1989-12-31 and the PH / SH selector on every listed date +-1 day with the "
+             "country's calendars attached; the country table is probed with every two-letter code AA..ZZ, lower case and long names. TLC "
+             "compares with a JSON rendering (format conversion only) of opening-hours/data/holidays_*.txt (117257 lines).",
+        note="The specification is a one-line equality: the value is in the exhaustive extraction, not in the model (stated in DESIGN.md).",
+        design_ref="8/C10",
+    ),
+    "C11": dict(
+        category="exploration",
+        technique="Sun.tla (defaults, order constraints around mean solar noon in integer arithmetic, local = absolute + zone offset, coordinate acceptance rule); recorded event times of the real code on a lat/lon/date grid validated by Trace_Sun",
+        text="Grid |lat| <= 60 deg (step 15 quick / 5 thorough, plus +-59.9, tropics) x lon -180..180 (step 30 / 7, plus +-179.99) x solstices, "
+             "equinox and random dates 1900..2100: the four absolute instants are ordered, each local time is the instant shifted by the zone "
+             "offset, after unwrapping modulo a day dawn < sunrise < noon-17min < noon+17min < sunset < dusk, `sunrise-sunset` is open at mean "
+             "solar noon and closed at mean solar midnight; defaults without coordinates; acceptance of coordinates for every pair of boundary "
+             "values, NaN and infinities, each accepted pair yielding a zone and evaluating.",
+        note="Numeric accuracy of the `sunrise` crate is outside the technique; only order / consistency is decided. |lat| > 60 not claimed.",
+        design_ref="8/C11",
     ),
 }
 
